@@ -416,7 +416,7 @@ func (g *Gen) exit(sc *scope, d int) Pipeline {
 func (g *Gen) simpleStmt(sc *scope, d int) Pipeline {
 	switch g.n(10) {
 	case 0:
-		if g.inLoop > 0 || g.inFn > 0 || g.p(0.3) {
+		if (g.inLoop > 0 && g.p(0.7)) || (g.inFn > 0 && g.p(0.4)) || g.p(0.15) {
 			return g.exit(sc, d)
 		}
 	case 1:
